@@ -347,6 +347,13 @@ func genPrio(engine, prop string, r *simrt.SplitMix) *PrioSc {
 		}
 	}
 
+	// C01 is a pure safety bound: on v1, whose constructors accept any non-zero quantity,
+	// it must also hold with fewer handlers than priorities (low priorities then starve,
+	// which the library documents; the run simply ends at its horizon)
+	if prop == "C01" && v1 && sc.Class == "normal" && len(prios) > 1 && r.Intn(6) == 0 {
+		sc.H = between(r, 1, len(prios)-1)
+	}
+
 	// shuffle so that input order is not priority order
 	for i := len(prios) - 1; i > 0; i-- {
 		j := r.Intn(i + 1)
